@@ -1063,6 +1063,9 @@ func (p *FunctionalPropertyGenerator) wrapDeserializeCode(valueExisting, typeExi
 			// an IRI in the form it would be written back in is read as
 			// one; anything else is the text it is.
 			iriCond = iriCond.Op("&&").Id("u").Dot("String").Call().Op("==").Id("s")
+			// Nor is it an IRI when it holds a character no IRI can hold:
+			// net/url writes "re: hello" back as it is.
+			iriCond = iriCond.Op("&&").Op("!").Qual("strings", "ContainsAny").Call(jen.Id("s"), jen.Lit(" <>\"{}|\\^`"))
 		}
 		iriCode = jen.If(
 			jen.List(
